@@ -13,7 +13,7 @@ Theorem C05_reduce_float r gk vals ng m nt nt' :
   length gk = length vals -> wf_mask (length gk) m ->
   group_func_wrap fops r gk [vals] ng m nt
   = group_func_wrap fops r (index_by (-1) gk m) [index_by (null fops) vals m] ng MNone nt'.
-Proof. exact (masked_call_is_filtered_call fops fops_laws fops_sum_closed r gk vals ng m nt nt'). Qed.
+Proof. exact (masked_call_is_filtered_call fops fops_laws r gk vals ng m nt nt'). Qed.
 Print Assumptions C05_reduce_float.
 
 Theorem C05_reduce_int nullv r gk vals ng m nt nt' :
@@ -23,7 +23,7 @@ Theorem C05_reduce_int nullv r gk vals ng m nt nt' :
   group_func_wrap o r gk [vals] ng m nt
   = group_func_wrap o r (index_by (-1) gk m) [index_by (null o) vals m] ng MNone nt'.
 Proof.
-  exact (fun Hr => masked_call_is_filtered_call _ (zops_laws false nullv) (zops_never_null_closed nullv)
+  exact (fun Hr => masked_call_is_filtered_call _ (zops_laws false nullv)
                      r gk vals ng m nt nt' Hr (fun _ _ => eq_refl)).
 Qed.
 Print Assumptions C05_reduce_int.
